@@ -305,6 +305,12 @@ def gen_expr(rng, names, depth, rich=True):
                    else ["log", "exp", "logistic"])
     if f == "maximum":
         b = gen_expr(rng, names, depth - 1, rich)
+        if rng.random() < 0.4:            # bare occurrences (Atoms that still carry their log-variable status)
+            b = gen_expr(rng, names, 0, rich)
+            if rng.random() < 0.5:
+                a = gen_expr(rng, names, 0, rich)
+        if rng.random() < 0.5:
+            a, b = b, a
         return f"maximum({a}, {b})"
     if f == "maximumc":
         return f"maximum({a}, {_dy(rng, 0.25, 3.0)!r})"
@@ -510,7 +516,7 @@ def gen_map_case(rng) -> dict:
             if t not in toks or rng.random() < 0.05:
                 toks.append(t)
         wrt[e] = toks
-    kind = rng.choice(["static", "static", "B", "stacked"])
+    kind = rng.choice(["static", "static", "B", "stacked", "terminal"])
     ncol = rng.randint(0, 7)
     cols = []
     for _ in range(ncol):
@@ -522,6 +528,18 @@ def gen_map_case(rng) -> dict:
     if kind == "stacked":
         c["columns_to_eval"] = sorted(rng.sample(range(0, 6), rng.randint(1, 3)))
         c["cols"] = [(q, s + rng.choice(c["columns_to_eval"])) for (q, s) in cols]
+    if kind == "terminal":
+        # the solution transition vector dated at the last simulated period; the unknowns: some of those spots missing
+        # (exogenized), some other spots (earlier periods, endogenized shocks) present, in any order
+        tv = []
+        for _ in range(rng.randint(1, 6)):
+            t = rtok()
+            if t not in tv:
+                tv.append(t)
+        spots = [t for t in tv if rng.random() < 0.7] + [t for t in cols if t not in tv]
+        rng.shuffle(spots)
+        c["terminit"] = tv
+        c["cols"] = spots
     return c
 
 
@@ -533,6 +551,15 @@ def impl_map_case(c: dict):
     cols = [Token(*t) for t in c["cols"]]
     try:
         offs = M.create_eid_to_rhs_offset(tuple(eids), wrt) if eids else {}
+        if c["kind"] == "terminal":
+            from irispie.fords.terminators import Terminator
+            fake = SimpleNamespace(_terminit_spots=tuple(Token(*t) for t in c["terminit"]), terminal_jacobian_map=None)
+            Terminator.create_terminal_jacobian_map(fake, cols)
+            tm = fake.terminal_jacobian_map
+            if list(tm.lhs[0]) or list(tm.rhs[0]):
+                return {"exc": "terminal map with row indices before completion"}
+            return {"offsets": [[int(e), int(offs[e])] for e in eids],
+                    "entries": [(0, int(a), 0, int(b)) for a, b in zip(tm.lhs[1], tm.rhs[1])]}
         if c["kind"] == "static":
             am = M.ArrayMap.static(eids, wrt, cols, offs, rhs_column=c["rhs_column"], lhs_column_offset=c["lhs_column_offset"])
             am.remove_nones()
@@ -561,6 +588,9 @@ def coq_map_case(c: dict) -> str:
         ent = f"(array_map_static {eids} {m} (some_columns {coq_tokens(c['cols'])}) {offs} {c['rhs_column']}%nat {c['lhs_column_offset']}%nat)"
     elif c["kind"] == "B":
         ent = f"(array_map_static {eids} {m} (lagged_columns {coq_tokens(c['cols'])}) {offs} 0%nat 0%nat)"
+    elif c["kind"] == "terminal":
+        ent = (f"(map (fun p : nat * nat => (0%nat, fst p, 0%nat, snd p)) "
+               f"(terminal_jacobian_map {coq_tokens(c['terminit'])} {coq_tokens(c['cols'])}))")
     else:
         ent = f"(stacked_map {eids} {m} {coq_tokens(c['cols'])} {coq_list([coq_z(k) for k in c['columns_to_eval']])})"
     return (f"(let m := {m_} in let eids := {eids_} in let offs := create_eid_to_rhs_offset m eids in\n"
@@ -600,7 +630,7 @@ def corr_maps(ctx, res: CorrResult):
     run_shards(ctx, res, "maps", shards)
     res.evaluations += len(cases)
     res.distribution["map_cases"] = len(cases)
-    res.distribution["map_kinds"] = {k: sum(1 for c in cases if c["kind"] == k) for k in ("static", "B", "stacked")}
+    res.distribution["map_kinds"] = {k: sum(1 for c in cases if c["kind"] == k) for k in ("static", "B", "stacked", "terminal")}
     res.distribution["map_nonempty"] = sum(1 for o in outs if o["entries"])
     return len({repr(c) for c, o in zip(cases, outs) if len(o["entries"]) >= 2})
 
@@ -833,7 +863,51 @@ def corr_steady(ctx, res: CorrResult, models):
 
 # ---- stacked time -----------------------------------------------------------------------
 
-def capture_stacked(m, spec, rng, nper, terminal):
+def build_plan(m, span, start, plan_spec):
+    """plan_spec: list of [op, period offset, name(s)...] with the public SimulationPlan methods"""
+    import irispie as ir
+    plan = ir.PlanSimulate(m, span)
+    for op in plan_spec:
+        kind, k = op[0], int(op[1])
+        per = start + k
+        if kind in ("swap_anticipated", "swap_unanticipated"):
+            getattr(plan, kind)(per, (op[2], op[3]))
+        else:
+            getattr(plan, kind)(per, op[2])
+    return plan
+
+
+def gen_plan_spec(rng, spec, nper, favour_last=True) -> list:
+    """a random legitimate plan: variables exogenized (anticipated in any simulated period, unanticipated in the first
+    one) against their own or another shock, or exogenized/endogenized separately in different periods"""
+    xs = spec["xs"]
+    ops, used_x, used_e = [], set(), set()
+    for _ in range(rng.randint(1, min(3, len(xs) * nper))):
+        i = rng.randrange(len(xs))
+        j = i if rng.random() < 0.7 else rng.randrange(len(xs))
+        k = (nper - 1) if (favour_last and rng.random() < 0.6) else rng.randrange(nper)
+        r = rng.random()
+        if r < 0.6:
+            if (xs[i], k) in used_x or (f"ant_e{j}", k) in used_e:
+                continue
+            ops.append(["swap_anticipated", k, xs[i], f"ant_e{j}"])
+            used_x.add((xs[i], k)); used_e.add((f"ant_e{j}", k))
+        elif r < 0.75:
+            if (xs[i], 0) in used_x or (f"e{j}", 0) in used_e:
+                continue
+            ops.append(["swap_unanticipated", 0, xs[i], f"e{j}"])
+            used_x.add((xs[i], 0)); used_e.add((f"e{j}", 0))
+        else:
+            k2 = rng.randrange(nper)
+            if (xs[i], k) in used_x or (f"ant_e{j}", k2) in used_e:
+                continue
+            ops.append(["exogenize_anticipated", k, xs[i]])
+            ops.append(["endogenize_anticipated", k2, f"ant_e{j}"])
+            used_x.add((xs[i], k)); used_e.add((f"ant_e{j}", k2))
+    return ops
+
+
+def capture_stacked(m, spec, rng, nper, terminal, plan_spec=None):
     import irispie as ir
     import irispie.stacked_time.simulators as sts
     cap = {}
@@ -856,10 +930,11 @@ def capture_stacked(m, spec, rng, nper, terminal):
             s = db[f"e{i}"]
             d = np.array(s.get_data(s.start >> s.end), dtype=float)[:, 0]
             db[f"e{i}"] = ir.Series(start=s.start, values=np.array([rng.randint(-8, 8) / 64 for _ in range(len(d))]))
+    plan = build_plan(m, span, start, plan_spec) if plan_spec else None
     sts._nq.damped_newton = fake
     try:
         with quiet():
-            m.simulate(db, span, method="stacked_time", terminal=terminal, initial_guess="data")
+            m.simulate(db, span, method="stacked_time", terminal=terminal, initial_guess="data", plan=plan)
     except Captured:
         pass
     finally:
@@ -1195,15 +1270,17 @@ def falsify_steady(mm, fails, info_counts):
             "-> SteadyEvaluator.eval_jacob(init) vs central differences of eval_func"))
 
 
-def falsify_stacked(mm, rng, fails, info_counts, force_terminal=None):
+def falsify_stacked(mm, rng, fails, info_counts, force_terminal=None, plan_spec=None, nper=None):
+    """plan_spec: None = no plan, "random" = draw one, or an explicit list (replay)"""
     if mm.spec.get("special") in REJECTED_SNIPPETS:
         return
     m = mm.m.copy()
-    nper = rng.randint(1, 3)
+    nper_given = nper
+    nper = nper_given or rng.randint(1, 3)
     terminal = "data"
     if force_terminal:
         terminal = force_terminal
-        nper = rng.randint(2, 4)
+        nper = nper_given or rng.randint(2, 4)
     elif not mm.spec.get("context_src") and rng.random() < 0.35 and mm.info["max_shift"] > 0:
         # (not for user context functions: their trees are opaque to the admissibility margins below, and a solved
         #  steady state may be a degenerate point where the two-sided quotient itself is meaningless)
@@ -1214,12 +1291,21 @@ def falsify_stacked(mm, rng, fails, info_counts, force_terminal=None):
             terminal = "first_order"
         except Exception:  # noqa
             m = mm.m.copy()
+    if plan_spec == "random":
+        plan_spec = gen_plan_spec(rng, mm.spec, nper)
     try:
-        cap = capture_stacked(m, mm.spec, rng, nper, terminal)
-    except Exception:  # noqa
+        cap = capture_stacked(m, mm.spec, rng, nper, terminal, plan_spec or None)
+    except Exception as e:  # noqa
+        if plan_spec:
+            info_counts["plan_setup_failed"] = info_counts.get("plan_setup_failed", 0) + 1
+            info_counts.setdefault("plan_setup_errors", [])
+            if len(info_counts["plan_setup_errors"]) < 3:
+                info_counts["plan_setup_errors"].append(f"{type(e).__name__}: {e}"[:140])
         return
     if not cap:
         return
+    if plan_spec:
+        info_counts["stacked_with_plan"] = info_counts.get("stacked_with_plan", 0) + 1
     g = cap["init_guess"]
     data = cap["data"]
 
@@ -1260,19 +1346,21 @@ def falsify_stacked(mm, rng, fails, info_counts, force_terminal=None):
         neq = len(info["teids"])
         eid = info["teids"][r % neq]
         fails.append(Failure(
-            f"stacked:{terminal}:{_culprit(info['trees'][eid])}",
-            f"stacked-time Jacobian entry [{r},{c}] (equation `{info['eqs'][eid].human}`, period {r // neq}, terminal={terminal}) "
-            "is not the derivative of eval_func",
+            f"stacked:{terminal}{':plan' if plan_spec else ''}:{_culprit(info['trees'][eid])}",
+            f"stacked-time Jacobian entry [{r},{c}] (equation `{info['eqs'][eid].human}`, period {r // neq}, terminal={terminal}"
+            f"{', plan=' + str(plan_spec) if plan_spec else ''}) is not the derivative of eval_func",
             dict({"source": spec_source(mm.spec), "assign": mm.spec["values"], "periods": nper, "terminal": terminal,
-                  "flat": bool(mm.spec.get("flat", False))},
+                  "flat": bool(mm.spec.get("flat", False)), "plan": plan_spec or None,
+                  "solve_first": bool(mm.spec.get("stable", False))},
                  **({"context_src": mm.spec["context_src"]} if mm.spec.get("context_src") else {})),
             float(J[r, c]), float(W[r, c]),
-            "m.simulate(db, span, method='stacked_time', terminal=...) -> evaluator.eval_jacob vs central differences of eval_func"))
+            "m.simulate(db, span, method='stacked_time', terminal=..., plan=PlanSimulate with the listed operations) -> "
+            "evaluator.eval_jacob vs central differences of eval_func"))
 
 
 def gen_stable_spec(rng) -> dict:
     """a small model with a known steady state x = m (so that it can be solved and simulated with terminal='first_order')"""
-    n = rng.randint(1, 2)
+    n = rng.randint(1, 3)
     xs = [f"x{i}" for i in range(n)]
     logs = [x for x in xs if rng.random() < 0.4]
     means = {x: _dy(rng, 1.0, 2.0) for x in xs}
@@ -1295,7 +1383,7 @@ def falsify_terminal(ctx, fails, counts):
     """stacked-time Jacobian including the terminal-condition correction (fords/terminators.py)"""
     rng = ctx.rng
     done = 0
-    for _ in range(ctx.scale(12, 300)):
+    for _ in range(ctx.scale(16, 300)):
         spec = gen_stable_spec(rng)
         try:
             m = build_model(spec)
@@ -1311,6 +1399,11 @@ def falsify_terminal(ctx, fails, counts):
         mm = SimpleNamespace(spec=spec, m=m, info=info, rho=None, arr=arr, off=off)
         before = counts["stacked_models"]
         falsify_stacked(mm, rng, fails, counts, force_terminal="first_order")
+        # the same model under simulation plans: exogenized points (often in the last simulated period) take spots out of
+        # the unknowns, endogenized shocks add some: the terminal-condition columns must follow
+        for _ in range(ctx.scale(2, 3)):
+            falsify_stacked(mm, rng, fails, counts, force_terminal="first_order", plan_spec="random")
+        falsify_stacked(mm, rng, fails, counts, force_terminal="data", plan_spec="random")
         done += counts["stacked_models"] - before
     counts["terminal_first_order_models"] = done
 
@@ -1459,6 +1552,70 @@ def user_function_checks(ctx, fails, info_counts):
             break
 
 
+# Every operator and offered function with BARE variable occurrences as operands (in-context Atoms: the only ones whose
+# derivative goes through the log-variable chain rule of the property Atom.diff), in every operand position, for every
+# assignment of log-status, on both sides of the maximum/minimum kink.
+OPERAND_TEMPLATES = [
+    "0.25*maximum({a}, {b})", "0.25*maximum({b}, {a})", "0.25*maximum(1*{a}, {b})", "0.25*maximum({a}, {b}*1)",
+    "0.25*maximum({a}, p0)", "0.25*maximum({a}, 1.5)", "0.25*maximum(0.5*{a}, maximum({b}, p0))",
+    "0.25*minimum({a}, {b})", "0.25*minimum({b}, {a})", "0.25*minimum({a}, 1.5)",
+    "0.25*({a} + {b})", "0.25*({a} - {b})", "0.25*{a}*{b}", "0.5*{a}/{b}", "0.25*{a}^{b}", "0.125*{a}^2", "0.25*{a}^p0",
+    "0.25*p0^{a}", "0.25*(2 + {a})", "0.25*(3 - {a})", "0.25*(2*{a})", "0.5*(2/{a})", "0.25*({a} - 1)", "0.25*({a}/2)",
+    "0.25*log({a})", "0.125*exp({a})", "0.25*sqrt({a})", "logistic({a})", "0.25*(-{a})", "0.25*(+{a})",
+    "0.25*log({a}*{b})", "0.25*sqrt({a}/{b})", "0.125*exp({a} - {b})",
+]
+OPERAND_OCCURRENCES = [("x0[-1]", "x1"), ("x1", "x0[-1]"), ("x1[+1]", "x0"), ("x0", "x1[-1]"), ("x1[-1]", "x1[+1]"),
+                       ("x0[+1]", "x0[-1]")]
+
+
+def operand_grid_specs(ctx):
+    rng = ctx.rng
+    for tpl in OPERAND_TEMPLATES:
+        combos = [(occ, logs, order) for occ in OPERAND_OCCURRENCES for logs in (["x0", "x1"], ["x1"], ["x0"], [])
+                  for order in (0, 1)]
+        if not ctx.thorough:
+            keep = [c for c in combos if c[1]]                      # at least one log-variable
+            combos = rng.sample(keep, 6 if "imum" in tpl else 3)
+        for (a, b), logs, order in combos:
+            lo, hi = _dy(rng, 0.625, 1.25), _dy(rng, 1.5, 2.5)
+            v0, v1 = (lo, hi) if order == 0 else (hi, lo)
+            yield {"xs": ["x0", "x1"], "ps": ["p0"], "ys": [], "logs": list(logs),
+                   "teqs": [f"x0 = {tpl.format(a=a, b=b)} + e0", "x1 = p0*x1[-1] + 0.5 + e1"], "meqs": [],
+                   "values": {"x0": (v0, 1.0 if "x0" in logs else 0.0), "x1": (v1, 1.0 if "x1" in logs else 0.0),
+                              "p0": _dy(rng, 0.5, 1.25)},
+                   "flat": True, "grid": tpl}
+
+
+def operand_grid_checks(ctx, fails, counts):
+    counts["operand_grid_models"] = 0
+    for spec in operand_grid_specs(ctx):
+        try:
+            m = build_model(spec)
+            info = model_info(m)
+            arr, off = steady_data(m, info)
+        except HarnessError:
+            raise
+        except Exception as e:  # noqa
+            counts.setdefault("operand_grid_errors", []).append(f"{type(e).__name__}: {e}"[:120]) \
+                if len(counts.get("operand_grid_errors", [])) < 3 else None
+            continue
+        mm = SimpleNamespace(spec=spec, m=m, info=info, rho=None, arr=arr, off=off)
+        try:
+            rho = rho_from_array(arr, off, all_tokens(info))
+            for eid in info["order"]:
+                num_eval(info["trees"][eid], rho)
+        except (Inadmissible, OverflowError, ZeroDivisionError, ValueError):
+            continue
+        before = counts["systemize_models"]
+        falsify_systemize(mm, fails, counts)
+        counts["operand_grid_models"] += counts["systemize_models"] - before
+        if "imum" in spec["grid"] or ctx.thorough:
+            falsify_steady(mm, fails, counts)
+            falsify_stacked(mm, ctx.rng, fails, counts)
+        if len(fails) > 60:
+            break
+
+
 def falsify(ctx, hints):
     rng = ctx.rng
     fails: list[Failure] = []
@@ -1497,7 +1654,8 @@ def falsify(ctx, hints):
     for mm in models[: ctx.scale(50, 1200)]:
         falsify_steady(mm, fails, counts)
     for mm in models[: ctx.scale(50, 1200)]:
-        falsify_stacked(mm, rng, fails, counts)
+        falsify_stacked(mm, rng, fails, counts, plan_spec="random" if rng.random() < 0.4 else None)
+    operand_grid_checks(ctx, fails, counts)
     falsify_terminal(ctx, fails, counts)
     user_function_checks(ctx, fails, counts)
     seen, uniq = set(), []
@@ -1544,8 +1702,17 @@ def replay(ctx, failure: dict):
         elif key.startswith("steady"):
             falsify_steady(mm, fails, counts)
         elif key.startswith("stacked"):
+            if inp.get("terminal") == "first_order":
+                try:
+                    with quiet():
+                        if not inp.get("solve_first"):
+                            mm.m.steady()
+                        mm.m.solve()
+                except Exception:  # noqa
+                    pass
             for _ in range(6):
-                falsify_stacked(mm, ctx.rng, fails, counts)
+                falsify_stacked(mm, ctx.rng, fails, counts, force_terminal=inp.get("terminal"),
+                                plan_spec=inp.get("plan"), nper=inp.get("periods"))
         else:
             falsify_systemize(mm, fails, counts)
     finally:
